@@ -266,3 +266,4 @@ _amend('C04', 'roll / pitch / yaw / eulerAngles: for q = qua(e) the arguments of
 _amend('C09', 'axisAngle() on a rotation matrix in general position returns sign(s) n and acos(c) on every path outside the near-symmetric branch; interpolate() is axisAngleMatrix(axis, angle * delta) * rot(m1) with (axis, angle) = axisAngle(m2 * transpose(rot(m1))) and the translation blended affinely (sub-functions kept as opaque calls).')
 _amend('C10', 'The same definitions are checked for the aligned matrix types of the SIMD configurations (SSE2; AVX2 and double in the thorough tier), which have their own inverse / determinant code.')
 _amend('C11', 'The GLSL definitions are checked for the scalar overload and for every vector length, including the mixed vector / scalar overloads; step is total (a NaN operand gives 1).')
+_amend('C03', 'Undecided class A / class B pairs are refuted by exact evaluation of both derived terms (ties, the 2^23 boundary, O(1) pools); lowp hardware approximations are decided by an error-factor argument (intrinsic lane == pure lane times or over one factor 1 + e, |e| <= 1.5 * 2^-12).')
